@@ -7,7 +7,7 @@ import random
 
 from vsim import gen
 from vsim.cluster import TICK, views, groups, sync_satisfiable, master_agreement, operational, ident, vt, peek
-from vsim.sim import World, Runaway, BASE_TIME
+from vsim.sim import World, Runaway, Livelock, BASE_TIME
 
 
 def make_scenario(rng, knobs):
@@ -370,6 +370,11 @@ class Run:
             return violations
         except Runaway:
             self.count('runaway_cases')
+            return [v for monitor in self.monitors for v in monitor.violations]
+        except Livelock as exc:
+            self.count('livelock_cases')
+            for monitor in self.monitors:
+                monitor.on_livelock(self, exc)
             return [v for monitor in self.monitors for v in monitor.violations]
         finally:
             w.close()
